@@ -109,13 +109,17 @@ func (s *vc11Stream) Context() context.Context { return context.Background() }
 // ---------- the active node's session tables, as the components expose them to the HA manager ----------
 // order: keys in the order the sessions became live (a released and re-created session moves to the end), the
 // order the model's snapshot uses; production iterates Go maps, i.e. in no particular order
+// part/parts: this iterator walks the part-th of parts contiguous chunks of that order (production registers one iterator
+// per access component; bulkSyncFromIterators only sees a list of iterators and must carry its page across them)
 type vc11Iter struct {
-	live  map[string]*vc11Sess
-	order *[]string
+	live        map[string]*vc11Sess
+	order       *[]string
+	part, parts int
 }
 
 func (it *vc11Iter) ForEachSession(fn func(models.SubscriberSession) bool) {
-	keys := append([]string(nil), (*it.order)...)
+	all := append([]string(nil), (*it.order)...)
+	keys := all[len(all)*it.part/it.parts : len(all)*(it.part+1)/it.parts]
 	snap := make([]models.SubscriberSession, 0, len(keys))
 	for _, k := range keys {
 		s := *it.live[k]
@@ -422,6 +426,93 @@ drain:
 		j(ring), j(stream), strings.Join(answers, "|"), consec(retained), consec(streamSeq), exact)
 }
 
+// ---------- storm cases: many handlers at once, no gate (every point between the counter and the pushes is a preemption
+// point for the scheduler).  All handlers of a round are released together by a barrier; the monitors are the same as for
+// conc cases.  The output does not depend on the schedule when number, push and enqueue are one step.
+func vc11Storm(f []string) string {
+	capacity, workers, rounds := vc11Int(f[2]), vc11Int(f[3]), vc11Int(f[4])
+	log := logger.NewTest()
+	ss := NewSyncSender(nil, capacity, []string{"srg1"}, log)
+	ss.SetActive(true)
+	b := ss.GetBacklog("srg1")
+	ringBad, streamBad, exactBad := 0, 0, 0
+	var last uint64
+	for r := 0; r < rounds; r++ {
+		start := make(chan struct{})
+		var wg sync.WaitGroup
+		for w := 0; w < workers; w++ {
+			wg.Add(1)
+			sess := &models.IPoESession{SessionID: vc11Name(w+1, "s"), SRGName: "srg1", State: models.SessionStateActive,
+				MAC: net.HardwareAddr{2, 0, 0, 0, byte(w >> 8), byte(w)}}
+			mutation := w%3 == 2
+			go func() {
+				defer wg.Done()
+				<-start
+				if mutation {
+					ss.HandleMutationResult(events.Event{Data: &events.SubscriberMutationResultEvent{SessionID: sess.SessionID, Ok: true, Session: sess}})
+				} else {
+					ss.HandleEvent(events.Event{Data: &events.SessionLifecycleEvent{SessionID: sess.SessionID, State: models.SessionStateActive, Session: sess}})
+				}
+			}()
+		}
+		close(start)
+		wg.Wait()
+		// stream order = sequence order
+		prev := last
+	drain:
+		for {
+			select {
+			case q := <-ss.sendCh:
+				if q.Sequence != prev+1 {
+					streamBad++
+				}
+				prev = q.Sequence
+			default:
+				break drain
+			}
+		}
+		last = prev
+		// ring consecutive, and Range exact on the newest entries
+		b.mu.Lock()
+		var retained []uint64
+		for j := 0; j < b.size; j++ {
+			retained = append(retained, b.entries[(b.head-b.size+b.capacity+j)%b.capacity].Sequence)
+		}
+		b.mu.Unlock()
+		for i := 1; i < len(retained); i++ {
+			if retained[i] != retained[i-1]+1 {
+				ringBad++
+				break
+			}
+		}
+		if n := len(retained); n > 0 {
+			lo := retained[0]
+			for _, s := range retained {
+				if s < lo {
+					lo = s
+				}
+			}
+			got, _ := vc11RangeHeld(b, lo, lo+uint64(n)-1)
+			sorted := append([]uint64(nil), retained...)
+			sort.Slice(sorted, func(i, j int) bool { return sorted[i] < sorted[j] })
+			p := make([]string, n)
+			for i, s := range sorted {
+				p[i] = strconv.FormatUint(s, 10)
+			}
+			if got != strings.Join(p, ",") {
+				exactBad++
+			}
+		}
+	}
+	okbad := func(n int) string {
+		if n == 0 {
+			return "ok"
+		}
+		return "bad"
+	}
+	return fmt.Sprintf("seq=%d ringconsec=%s streamorder=%s rangeexact=%s", ss.GetSeq("srg1"), okbad(ringBad), okbad(streamBad), okbad(exactBad))
+}
+
 // ---------- hist cases ----------
 type vc11Pool struct {
 	fam     int
@@ -486,7 +577,53 @@ func vc11PoolKey(i int) string {
 	return "p/n" + strconv.Itoa(i)
 }
 
+// every checkpoint field the model does not carry gets a distinct non-zero value derived from the session id; the
+// expected rendering (per access type, independent of sessionToCheckpoint) is compared with the decoded stored checkpoint
+func (s *vc11Sess) extras() string {
+	n := s.sid
+	attrs := fmt.Sprintf("a%d=x%d,b%d=y%d", n, n, n, n)
+	switch s.kind {
+	case "I":
+		return fmt.Sprintf("aaa=aaa-%d sg=sg-%d v6lt=%d cid=cid-%d host=host-%d duid=duid-%d attrs=%s bound=%d", n, n, 7000+n, n, n, n, attrs, 1700000000000000000+int64(n))
+	case "P":
+		return fmt.Sprintf("aaa=aaa-%d sg=sg-%d lcp=lcp-%d ipcp=ipcp-%d v6cp=v6cp-%d duid=duid-%d v6lt=%d attrs=%s mtu=%d mss4=%d mss6=%d bound=%d",
+			n, n, n, n, n, n, 7000+n, attrs, 1400+n, 1300+n, 1200+n, 1700000000000000000+int64(n))
+	default:
+		return fmt.Sprintf("aaa=aaa-%d sg= aif=aif-%d atpid=%d hg=hg-%d hif=hif-%d hcvlan=%d htpid=%d transp=%v attrs=%s bound=%d",
+			n, n, 0x8100+n, n, n, 300+n, 0x88a8+n, n%2 == 1, attrs, 1700000000000000000+int64(n))
+	}
+}
+
+func vc11Extras(cp *hapb.SessionCheckpoint) string {
+	keys := make([]string, 0, len(cp.AaaAttributes))
+	for k := range cp.AaaAttributes {
+		keys = append(keys, k)
+	}
+	sort.Strings(keys)
+	var kv []string
+	for _, k := range keys {
+		kv = append(kv, k+"="+cp.AaaAttributes[k])
+	}
+	attrs := strings.Join(kv, ",")
+	switch cp.AccessType {
+	case "ipoe":
+		return fmt.Sprintf("aaa=%s sg=%s v6lt=%d cid=%s host=%s duid=%s attrs=%s bound=%d", cp.AaaSessionId, cp.ServiceGroup,
+			cp.Ipv6LeaseTime, cp.ClientId, cp.Hostname, cp.Dhcpv6Duid, attrs, cp.BoundAtNs)
+	case "pppoe":
+		return fmt.Sprintf("aaa=%s sg=%s lcp=%s ipcp=%s v6cp=%s duid=%s v6lt=%d attrs=%s mtu=%d mss4=%d mss6=%d bound=%d", cp.AaaSessionId,
+			cp.ServiceGroup, cp.LcpState, cp.IpcpState, cp.Ipv6CpState, cp.Dhcpv6Duid, cp.Ipv6LeaseTime, attrs, cp.NegotiatedPppMtu,
+			cp.Ipv4Mss, cp.Ipv6Mss, cp.BoundAtNs)
+	default:
+		return fmt.Sprintf("aaa=%s sg=%s aif=%s atpid=%d hg=%s hif=%s hcvlan=%d htpid=%d transp=%v attrs=%s bound=%d", cp.AaaSessionId,
+			cp.ServiceGroup, cp.AccessInterface, cp.AccessTpid, cp.HandoffGroup, cp.HandoffInterface, cp.HandoffCvlan, cp.HandoffTpid,
+			cp.Transparent, attrs, cp.BoundAtNs)
+	}
+}
+
 func (s *vc11Sess) build() models.SubscriberSession {
+	n := s.sid
+	attrs := map[string]string{fmt.Sprintf("a%d", n): fmt.Sprintf("x%d", n), fmt.Sprintf("b%d", n): fmt.Sprintf("y%d", n)}
+	bound := time.Unix(0, 1700000000000000000+int64(n))
 	st := models.SessionStateActive
 	if s.rel {
 		st = models.SessionStateReleased
@@ -517,16 +654,26 @@ func (s *vc11Sess) build() models.SubscriberSession {
 		return &models.IPoESession{SessionID: vc11Name(s.sid, "s"), State: st, MAC: mac, OuterVLAN: uint16(s.ov),
 			InnerVLAN: uint16(s.iv), VRF: vc11Name(s.vrf, "vrf"), SRGName: vc11SrgName(s.srg), IPv4Address: v4,
 			LeaseTime: s.misc, RelayInfo: relay, IPv6Address: v6, IPv6Prefix: pfx, Username: vc11Name(s.user, "u"),
-			IPv4Pool: vc11PoolKey(s.v4pool), IANAPool: vc11PoolKey(s.napool), PDPool: vc11PoolKey(s.pdpool)}
+			IPv4Pool: vc11PoolKey(s.v4pool), IANAPool: vc11PoolKey(s.napool), PDPool: vc11PoolKey(s.pdpool),
+			AAASessionID: fmt.Sprintf("aaa-%d", n), ServiceGroup: fmt.Sprintf("sg-%d", n), IPv6LeaseTime: uint32(7000 + n),
+			ClientID: []byte(fmt.Sprintf("cid-%d", n)), Hostname: fmt.Sprintf("host-%d", n), DUID: []byte(fmt.Sprintf("duid-%d", n)),
+			Attributes: attrs, ActivatedAt: bound}
 	case "P":
 		return &models.PPPSession{SessionID: vc11Name(s.sid, "s"), State: st, MAC: mac, OuterVLAN: uint16(s.ov),
 			InnerVLAN: uint16(s.iv), VRF: vc11Name(s.vrf, "vrf"), SRGName: vc11SrgName(s.srg), IPv4Address: v4,
 			LCPMagic: s.misc, IPv6Address: v6, IPv6Prefix: pfx, Username: vc11Name(s.user, "u"),
-			IPv4Pool: vc11PoolKey(s.v4pool), IANAPool: vc11PoolKey(s.napool), PPPSessionID: uint16(s.ppp)}
+			IPv4Pool: vc11PoolKey(s.v4pool), IANAPool: vc11PoolKey(s.napool), PPPSessionID: uint16(s.ppp),
+			AAASessionID: fmt.Sprintf("aaa-%d", n), ServiceGroup: fmt.Sprintf("sg-%d", n), LCPState: fmt.Sprintf("lcp-%d", n),
+			IPCPState: fmt.Sprintf("ipcp-%d", n), IPv6CPState: fmt.Sprintf("v6cp-%d", n), DUID: []byte(fmt.Sprintf("duid-%d", n)),
+			IPv6LeaseTime: uint32(7000 + n), Attributes: attrs, NegotiatedPPPMTU: uint16(1400 + n), IPv4MSS: uint16(1300 + n),
+			IPv6MSS: uint16(1200 + n), ActivatedAt: bound}
 	default:
 		return &models.L2GWSession{SessionID: vc11Name(s.sid, "s"), State: st, MAC: mac, OuterVLAN: uint16(s.ov),
 			InnerVLAN: uint16(s.iv), SRGName: vc11SrgName(s.srg), Username: vc11Name(s.user, "u"),
-			HandoffSVLAN: uint16(s.misc)}
+			HandoffSVLAN: uint16(s.misc), AAASessionID: fmt.Sprintf("aaa-%d", n), AccessInterface: fmt.Sprintf("aif-%d", n),
+			AccessTPID: uint16(0x8100 + n), HandoffGroup: fmt.Sprintf("hg-%d", n), HandoffInterface: fmt.Sprintf("hif-%d", n),
+			HandoffCVLAN: uint16(300 + n), HandoffTPID: uint16(0x88a8 + n), Transparent: n%2 == 1, Attributes: attrs,
+			ActivatedAt: bound}
 	}
 }
 
@@ -689,7 +836,8 @@ func vc11Hist(f []string) string {
 	next := map[int]int{}
 	live := map[string]*vc11Sess{} // "ns/sid" -> last non-released session
 	var liveOrder []string
-	mgr.sessionIterators = []SessionIterator{&vc11Iter{live: live, order: &liveOrder}}
+	mgr.sessionIterators = []SessionIterator{&vc11Iter{live: live, order: &liveOrder, part: 0, parts: 3},
+		&vc11Iter{live: live, order: &liveOrder, part: 1, parts: 3}, &vc11Iter{live: live, order: &liveOrder, part: 2, parts: 3}}
 	panics := 0
 	guard := func(fn func()) {
 		defer func() {
@@ -860,6 +1008,7 @@ func vc11Hist(f []string) string {
 		b2.OldestSeq(), b2.NewestSeq(), b2.Size(), panics))
 	// standby store
 	var st []string
+	var fieldsBad []string
 	for ns, m := range store.data {
 		for _, v := range m {
 			cp := &hapb.SessionCheckpoint{}
@@ -868,6 +1017,11 @@ func vc11Hist(f []string) string {
 				continue
 			}
 			st = append(st, vc11CPString(ns, cp))
+			// the fields the model does not carry, for sessions that are live on the active node
+			nsi := map[string]int{opdb.NamespaceHASyncedIPoE: 1, opdb.NamespaceHASyncedPPPoE: 2, opdb.NamespaceHASyncedL2GW: 3}[ns]
+			if ls := live[fmt.Sprintf("%d/%d", nsi, vc11Idx(cp.SessionId, "s"))]; ls != nil && vc11Extras(cp) != ls.extras() {
+				fieldsBad = append(fieldsBad, fmt.Sprintf("%s:%s!=%s", cp.SessionId, vc11Extras(cp), ls.extras()))
+			}
 		}
 	}
 	vc11SortKeyed(st)
@@ -926,7 +1080,12 @@ func vc11Hist(f []string) string {
 	if strings.Join(el, ";") != strings.Join(ls, ";") {
 		pl = "bad"
 	}
-	out = append(out, "conv="+conv, "pools="+pl)
+	fl := "ok"
+	if len(fieldsBad) > 0 {
+		sort.Strings(fieldsBad)
+		fl = "bad(" + strings.ReplaceAll(fieldsBad[0], " ", "_") + ")"
+	}
+	out = append(out, "fields="+fl, "conv="+conv, "pools="+pl)
 	return strings.Join(out, " ")
 }
 
@@ -1045,6 +1204,8 @@ func TestVerifC11(t *testing.T) {
 				done <- vc11Hist(f)
 			case "conc":
 				done <- vc11Conc(f)
+			case "storm":
+				done <- vc11Storm(f)
 			default:
 				done <- "badline"
 			}
